@@ -107,7 +107,7 @@ class Seq(V):
 
 
 def _src_vars(w, acc):
-    if w is None:
+    if w is None or w[0] == "cellbyte":
         return
     if w[0] == "cat":
         _src_vars(w[1], acc)
@@ -131,8 +131,8 @@ def _src_vars(w, acc):
 
 
 def src_rename(w, f):
-    if w is None:
-        return None
+    if w is None or w[0] == "cellbyte":
+        return w
     if w[0] == "cat":
         return ("cat", src_rename(w[1], f), w[2].rename(f), src_rename(w[3], f))
     if w[0] == "patch":
@@ -149,7 +149,7 @@ def src_rename(w, f):
 
 def src_atom(w):
     """is this content description a plain window (id, offset) of an identified content"""
-    return w is not None and w[0] not in ("cat", "patch", "sub")
+    return w is not None and w[0] not in ("cat", "patch", "sub", "cellbyte")
 
 
 def src_window(w, total, lo):
